@@ -156,7 +156,7 @@ class Chains:
             # an operation's result stays in play while the dense array it stands for is well defined - also when the
             # library has left an entry without rows behind (C07's business at that step, but what later operations
             # make of it is part of this history)
-            pool = [p for p in pool if wellformed(p, allow_empty=True) and self._same_kind(p, U)]
+            pool = [p for p in pool if wellformed(p, allow_empty=True, allow_unsorted=True) and self._same_kind(p, U)]
             if not pool:
                 pool = [self.rand_index(U, shape)]
             idx = rnd.choice(pool)
@@ -258,8 +258,10 @@ class Chains:
 
     def op_reindexed_map(self, idx, U):
         rnd = self.rnd
-        au = rnd.random() < 0.2
-        m = self._mapping(idx, U, unique=au)
+        au = rnd.random() < 0.25
+        # assume_unique promises that no ROW occurs twice among the entries that get merged - which holds for every
+        # well-formed index whatever the mapping (a row holds one value per column): half of these calls merge values
+        m = self._mapping(idx, U, unique=au and rnd.random() < 0.5)
         if rnd.random() < 0.1:
             m = {}                         # an explicit mapping that maps nothing is the identity, not "no mapping given"
         return self.rec.reindexed(idx, m, copy=rnd.random() < 0.7, shift=rnd.random() < 0.8, assume_unique=au)
@@ -364,6 +366,47 @@ class Chains:
                 src = canonical(self.iindex, np.where(dense_of(idx) == idx.common, dense_of(other), idx.common), idx.common) \
                     if idx.shape[0] and all(idx.shape) else idx
             self.rec.set_update(idx, which, [(k, np.asarray(v).tolist()) for k, v in dict.items(src)], from_index=src)
+
+    def merged_then_updated(self):
+        """two-step histories aimed at a result whose VALUE is right but whose representation is not what the next
+        operation relies on: values with interleaved rows are merged by reindexed (assume_unique or not, copy or not),
+        collapsed or from-scratch construction with a many-to-one mapping, and the merged entry is then the target of an
+        entry-wise set update, an update, an append, a filter or a second merge"""
+        rnd = self.rnd
+        U = [0, 1, 2, 3, 4]
+        n = rnd.choice([4, 6, 9, 13])
+        ndim = rnd.choice([1, 1, 2])
+        shape = (n,) if ndim == 1 else (n, rnd.choice([1, 2]))
+        d = np.array([rnd.choice([1, 2, 3, 0]) for _ in range(int(np.prod(shape)))], dtype=object).reshape(shape)
+        idx = canonical(self.iindex, d, rnd.choice([0, 4]))
+        m = {1: 3, 2: 3} if rnd.random() < 0.6 else {1: 2, 3: 2}
+        new = self.rec.reindexed(idx, m, copy=rnd.random() < 0.7, shift=rnd.random() < 0.5, assume_unique=rnd.random() < 0.7)
+        if new is None or not wellformed(new, allow_empty=True, allow_unsorted=True):
+            return
+        tgt = m[1]
+        hcs = [()] if ndim == 1 else [(c,) for c in range(shape[1])]
+        step = rnd.choice(["diff", "inter", "union", "update", "append", "filtered", "again", "indx"])
+        if step in ("diff", "inter"):
+            self.rec.set_update(new, step, [((tgt,) + hc, self.rand_rows(n)) for hc in hcs if rnd.random() < 0.8])
+        elif step == "union":
+            D = dense_of(new)
+            other = []
+            for hc in hcs:
+                col = D[(slice(None),) + hc].tolist()
+                rows = [r for r in range(n) if col[r] == new.common and rnd.random() < 0.5]
+                if tgt != new.common:
+                    other.append(((tgt,) + hc, rows))
+            self.rec.set_update(new, "union", other)
+        elif step == "update":
+            self.op_update(new, U)
+        elif step == "append":
+            self.op_append(new, U)
+        elif step == "filtered":
+            self.op_filtered(new, U)
+        elif step == "again":
+            self.rec.reindexed(new, {tgt: 0, 0: tgt}, copy=True, shift=True, assume_unique=rnd.random() < 0.5)
+        else:
+            self.op_indx(new, U)
 
     def op_indx(self, idx, U):
         if all(isinstance(k[0], int) and k[0] >= 0 for k in dict.keys(idx)) and isinstance(idx.common, int) and idx.common >= 0:
